@@ -209,8 +209,8 @@ class C09(Prop):
     chunk = 150
 
     REQS = ['incr', 'decr', 'set', 'reload', 'restart', 'stop', 'start',
-            'kill', 'list', 'status']
-    WEIGHTS = [3, 3, 3, 3, 2, 1, 2, 1, 1, 1]
+            'kill', 'list', 'status', 'signal']
+    WEIGHTS = [3, 3, 3, 3, 2, 1, 2, 1, 1, 1, 2]
 
     def gen(self, rng, tier, seed):
         cfg = gen.gen_base_cfg(rng, seed, max_age_p=0.1,
@@ -223,6 +223,13 @@ class C09(Prop):
         n = rng.choice([2, 3, 4, 6, 8, 12]) if tier == 'quick' else \
             rng.choice([2, 3, 5, 8, 12, 20])
         ops = gen.gen_history(rng, cfg, n, self.REQS, self.WEIGHTS)
+        for op in ops:
+            if op['op'] == 'req' and op['cmd'] == 'signal' and \
+                    rng.random() < 0.6:
+                # signals a worker survives (ignored by default, or handled):
+                # the worker stays, so must its place in the event stream
+                op['props']['signum'] = rng.choice([28, 17, 23, 18, 'winch',
+                                                    'SIGCONT'])
         return {'cfg': cfg, 'ops': ops}
 
     # --------------------------------------------- boundary enumeration
